@@ -159,9 +159,11 @@ fn record_sampler<S: Tok + PartialEq + num_traits::ToPrimitive>(seed: u64, n_cha
         chain.target = new_cond::<S>(&logs[c], vec![], seed + c as u64);
     }
     // two calls on the same sampler: the chains keep their own (stateful) conditionals across calls
+    // burn-in lengths: odd and even, dimension odd and even (a separate burn-in path must not ask more or fewer questions)
+    let (nd1, nd2) = (5usize, 2usize);
     let r = catch(|| {
-        let first = sampler.run(steps - steps / 2, 0);
-        let second = sampler.run(steps / 2, 0);
+        let first = sampler.run(steps - steps / 2, nd1);
+        let second = sampler.run(steps / 2, nd2);
         match (first, second) {
             (Ok(a), Ok(b)) => ndarray::concatenate(ndarray::Axis(1), &[a.view(), b.view()]).map_err(|e| e.to_string()),
             (a, b) => Err(format!("{:?} {:?}", a.err(), b.err())),
@@ -173,15 +175,22 @@ fn record_sampler<S: Tok + PartialEq + num_traits::ToPrimitive>(seed: u64, n_cha
         for (k, ev) in calls.iter().enumerate() {
             out.push(ev);
             if (k + 1) % dim == 0 {
-                // state after this sweep as returned in the sample array
-                if let Ok(Ok(sample)) = &r {
-                    let row = k / dim;
-                    let st: Vec<i64> = (0..dim).map(|d| sample[[c, row, d]].tok()).collect();
-                    out.push(&json!({"e": "end", "state": st}));
+                // sweeps nd1 .. of the first call and nd2 .. of the second are collected; the others are burn-in
+                let sweep = k / dim;
+                let n1 = steps - steps / 2;
+                let row = if sweep < nd1 { None } else if sweep < nd1 + n1 { Some(sweep - nd1) }
+                    else if sweep < nd1 + n1 + nd2 { None } else { Some(sweep - nd1 - nd2) };
+                match (row, &r) {
+                    (Some(row), Ok(Ok(sample))) if row < sample.shape()[1] => {
+                        // state after this sweep as returned in the sample array
+                        let st: Vec<i64> = (0..dim).map(|d| sample[[c, row, d]].tok()).collect();
+                        out.push(&json!({"e": "end", "state": st}));
+                    }
+                    _ => out.push(&json!({"e": "endb"})),
                 }
             }
         }
-        out.push(&json!({"e": "ran", "sweeps": steps}));
+        out.push(&json!({"e": "ran", "sweeps": steps + nd1 + nd2}));
     }
     if let Err(e) = r {
         out.push(&json!({"e": "panic", "msg": e}));
@@ -211,6 +220,7 @@ pub fn record(args: &[String]) {
     }
     record_sampler::<f64>(splitmix(&mut s), 5, 3, steps, &mut out);
     record_sampler::<i32>(splitmix(&mut s), 8, 2, steps, &mut out);
+    record_sampler::<f32>(splitmix(&mut s), 3, 5, steps.min(12), &mut out);
     let n = out.finish();
     println!("{}", json!({"summary": true, "events": n}));
 }
